@@ -304,7 +304,7 @@ int main(int argc, char **argv) {
           int skip = (sd->nr == SYS_ioctl && (unsigned long)t->a[1] != FICLONE_NR && (unsigned long)t->a[1] != FIEMAP_NR)
                   || ((sd->nr == SYS_write || sd->nr == SYS_read || sd->nr == SYS_close || sd->nr == SYS_fstat || sd->nr == SYS_fcntl) && (int)t->a[0] <= 2 && sd->nr != SYS_close);
           if (!skip) {
-            fprintf(out, "{\"n\":%ld,\"tid\":%d,\"sys\":\"%s\",\"a\":[%ld,%ld,%ld,%ld,%ld,%ld],\"ret\":%ld", t->seq_entry, tid,
+            fprintf(out, "{\"n\":%ld,\"x\":%ld,\"tid\":%d,\"sys\":\"%s\",\"a\":[%ld,%ld,%ld,%ld,%ld,%ld],\"ret\":%ld", t->seq_entry, ++seq, tid,
                     (sd->nr == SYS_ioctl ? ((unsigned long)t->a[1] == FICLONE_NR ? "ficlone" : "fiemap") : sd->name),
                     t->a[0], t->a[1], t->a[2], t->a[3], t->a[4], t->a[5], ret);
             if (t->p0[0]) jstr(out, "path", t->p0);
